@@ -158,7 +158,7 @@ def main():
         if not args.only and not args.no_conformance:
             # engine-fidelity twins ride along with every check (DESIGN 2.6): a disagreement makes the run exit 3
             mini = ('relationships_aliases.dbml', 'schemas', 'props', 'helpers/0', 'helpers/2', 'helpers/6')
-            insts += [i for i in conf.instances(tier) if tier != 'quick' or any(i['name'].endswith(m) for m in mini)]
+            insts += [i for i in conf.instances('quick') if any(i['name'].endswith(m) for m in mini)]   # full set: --property CONF
     if args.only:
         insts = [i for i in insts if args.only in i['name']]
     if args.list:
